@@ -7,6 +7,7 @@ import (
 	"fmt"
 	"net/url"
 	"path"
+	"sort"
 
 	"github.com/benoitkugler/webrender/logger"
 	mt "github.com/benoitkugler/webrender/matrix"
@@ -322,6 +323,8 @@ func (d *Document) resolveLinks() ([][]Link, [][]backend.Anchor) {
 				anchors.Add(anchorName)
 			}
 		}
+		// map iteration order is random : make the output deterministic
+		sort.Slice(current, func(i, j int) bool { return current[i].Name < current[j].Name })
 		pagedAnchors[i] = current
 	}
 	pagedLinks := make([][]Link, len(d.Pages))
